@@ -362,6 +362,11 @@ func (e *Evaluator) evalCaseMatch(value *Cell, exprs []Expr) (bool, map[string]*
 			if err != nil {
 				return false, nil, err
 			}
+			if value.Value.Tag == ValueUnknown {
+				// a literal matches when `value == literal`, and == is false for
+				// a value that was never assigned
+				continue
+			}
 			cmp, err := value.Value.Compare(&caseValue.Value)
 			if err != nil {
 				return false, nil, e.error(expr.Token(), err.Error())
